@@ -100,25 +100,27 @@ structure MSum where
   sampled : Nat := 0
   bits : Nat := 0
   drop : Nat := 0
+  wsum : Int := 0   -- whale weights of the rows kept with factor 1
 
-def MSum.add (m : MSum) (e : Ev) : MSum :=
+def MSum.add (m : MSum) (e : Ev) (whale : Int) : MSum :=
   if !e.kept then { m with n := m.n + 1, drop := m.drop + 1 }
-  else if e.num == e.den && !e.isMax then { m with n := m.n + 1, one := m.one + 1 }
+  else if e.num == e.den && !e.isMax then { m with n := m.n + 1, one := m.one + 1, wsum := m.wsum + whale }
   else { m with n := m.n + 1, sampled := m.sampled + 1, bits := sfBits e }
 
-def addSum (metric : Int) (e : Ev) : List MSum → List MSum
-  | [] => [({ metric := metric } : MSum).add e]
-  | m :: r => if m.metric == metric then m.add e :: r else m :: addSum metric e r
+def addSum (metric : Int) (e : Ev) (whale : Int) : List MSum → List MSum
+  | [] => [({ metric := metric } : MSum).add e whale]
+  | m :: r => if m.metric == metric then m.add e whale :: r else m :: addSum metric e whale r
 
 def showMSum (m : MSum) : String :=
-  s!"am {m.metric} n={m.n} one={m.one} sf={m.sampled} bits={hex16 m.bits} drop={m.drop}"
+  s!"am {m.metric} n={m.n} one={m.one} sf={m.sampled} bits={hex16 m.bits} drop={m.drop} wsum={m.wsum}"
 
 def renderAgent (s : DState) (shard minB sumB maxHalf : Int) : List String :=
   let rows := s.arows.reverse
   let budget := agentBudget shard minB sumB maxHalf
   let acts := agentBucket s.cfg rows budget s.draws
   let metricOf (id : Nat) : Int := ((rows.find? (fun r => r.item.id == id)).map (·.item.metric)).getD 0
-  let sums := (evs acts).foldl (fun acc e => addSum (metricOf e.id) e acc) []
+  let whaleOf (id : Nat) : Int := ((rows.find? (fun r => r.item.id == id)).map (·.item.whale)).getD 0
+  let sums := (evs acts).foldl (fun acc e => addSum (metricOf e.id) e (whaleOf e.id) acc) []
   let sorted := sums.toArray.qsort (fun a b => a.metric < b.metric) |>.toList
   errsOf acts ++ sorted.map showMSum
 
